@@ -145,7 +145,7 @@ def collect(prog):
     ssy = Sym(prog, san, slice_param=99)
     sorts = [(bb, t) for bb, t in sb.calls() if short(cname(t)).startswith("<impl [T]>::sort")]
     wins = [(bb, t) for bb, t in sb.calls() if short(cname(t)) == "<impl [T]>::windows"]
-    srec = {"table": [[a, v] for a, v in accept.ret_table(prog, SORT)], "sort_calls": [short(cname(t)) for _, t in sorts]}
+    srec = {"table": [[a, v] for a, v in accept.ret_table(prog, SORT, quantified=True)], "sort_calls": [short(cname(t)) for _, t in sorts]}
     srec["sort_dominates_duplicate_check"] = bool(sorts and wins and all(sb.dominates(sorts[0][0], w[0]) for w in wins))
     srec["run_number_check_before_or_after"] = "n/a"
     key = None
